@@ -301,9 +301,17 @@ def build(cfg):
         d = cfg["dec"]
         dec = csr.Decoder(addr_width=d["aw"], data_width=mon.bus.data_width, alignment=d["al"])
         try:
-            dec.add(mon.bus, name="mon", addr=d["addr"])
+            placed = dec.add(mon.bus, name="mon", addr=d["addr"])
         except (ValueError, TypeError, KeyError, AssertionError) as e:
             raise Refused((-3, EXC[type(e).__name__]))
+        room = 1 << max(1, d["al"])
+        if placed[0] >= room:
+            # a neighbour below the monitor, added after it (windows added in descending address order): an idle
+            # subordinate with an empty memory map, which reports nothing and answers nothing
+            from amaranth_soc.memory import MemoryMap
+            other = csr.Interface(addr_width=1, data_width=mon.bus.data_width, path=("other",))
+            other.memory_map = MemoryMap(addr_width=1, data_width=mon.bus.data_width)
+            dec.add(other, name="other", addr=0)
         m = Module()
         m.submodules.dec = dec
         m.submodules.mon = mon
